@@ -16,7 +16,8 @@ EXTENDS Rat, Sequences, TLC, Json, FiniteSets
 CONSTANTS Grid,       \* set of integer component values
           Systems,    \* subset of 1..4: coordinate-system objects in play
           NOps,       \* operands per behaviour: 2 (pairs) or 3 (triples)
-          Scalars     \* integer scale factors used by the scaling clauses
+          Scalars,    \* integer scale factors used by the scaling clauses
+          Lens        \* subset of 0..3: numbers of components in play
 
 VARIABLES ops         \* the operands chosen so far
 
@@ -30,7 +31,7 @@ Scalars3 == {-1, 0, 2}
 \* four coordinate-system objects: two distinct Cartesian ones, a cylindrical and a spherical one
 SysType == <<"cart", "cart", "cyl", "sph">>
 
-Comps   == UNION {[1..n -> Grid] : n \in 0..3}
+Comps   == UNION {[1..n -> Grid] : n \in Lens}
 Vectors == [sys : Systems, c : Comps]
 
 -----------------------------------------------------------------------------
@@ -80,6 +81,14 @@ Verdict(op, a, b) ==
   ELSE IF op \in CartOnly THEN "refuse"
   ELSE "open"
 
+\* n-ary add_cartesian_vectors(v1, .., vn) / subtract_cartesian_vectors(v1, .., vn) (n >= 2): refused as soon as
+\* ANY operand lives in another system than the first one or is not Cartesian - whatever its position
+NaryVerdict(vs) == IF \A i \in DOMAIN vs : vs[i].sys = vs[1].sys /\ IsCart(vs[i]) THEN "accept" ELSE "refuse"
+RECURSIVE SumFrom(_, _)
+SumFrom(vs, i) == IF i > Len(vs) THEN <<>> ELSE CAdd(vs[i].c, SumFrom(vs, i + 1))
+NarySum(vs)  == SumFrom(vs, 1)                                   \* v1 + v2 + .. + vn
+NaryDiff(vs) == CSub(vs[1].c, SumFrom(vs, 2))                    \* v1 - (v2 + .. + vn)
+
 -----------------------------------------------------------------------------
 Init == ops = <<>>
 Choose(v) == Len(ops) < NOps /\ ops' = Append(ops, v)
@@ -127,6 +136,12 @@ RefusalRules ==
       /\ Verdict(op, ops[1], ops[2]) = Verdict(op, ops[2], ops[1])
       /\ (Verdict(op, ops[1], ops[2]) = "accept") = BothCart(ops[1], ops[2])
       /\ (ops[1].sys # ops[2].sys => Verdict(op, ops[1], ops[2]) = "refuse")
+\* an n-ary sum is accepted iff every pair of its operands may be added; the verdict ignores the order
+NaryRefusalRules ==
+  Len(ops) >= 2 =>
+    /\ (NaryVerdict(ops) = "accept") = (\A i, j \in DOMAIN ops : Verdict("add", ops[i], ops[j]) = "accept")
+    /\ NaryVerdict(ops) = NaryVerdict([i \in DOMAIN ops |-> ops[Len(ops) + 1 - i]])
+    /\ (Len(ops) = 2 => NaryVerdict(ops) = Verdict("add", ops[1], ops[2]))
 
 -----------------------------------------------------------------------------
 (* Emission of every case with the model's results (spec -> code).           *)
@@ -154,6 +169,12 @@ TripleCase(a, b, c) ==
    add3 |-> Pad3(CAdd(CAdd(a.c, b.c), c.c)),
    dotl |-> CDot(CAdd(a.c, b.c), c.c), crossl |-> CCross(CAdd(a.c, b.c), c.c),
    crossr |-> CCross(c.c, CAdd(a.c, b.c))]
+
+\* n-ary sums over mixed systems: refusal (and the value when accepted)
+EmitNary == Len(ops) = NOps =>
+              PrintT(ToJson([n |-> NOps, nary |-> TRUE, sys |-> [i \in DOMAIN ops |-> ops[i].sys],
+                             vs |-> [i \in DOMAIN ops |-> ops[i].c], verdict |-> NaryVerdict(ops),
+                             sum |-> Pad3(NarySum(ops)), diff |-> Pad3(NaryDiff(ops))]))
 
 Emit == Len(ops) = NOps =>
           PrintT(ToJson(IF NOps = 2 THEN PairCase(ops[1], ops[2]) ELSE TripleCase(ops[1], ops[2], ops[3])))
